@@ -55,6 +55,54 @@ def _norm(tree):
 	return tree
 
 
+def rule_codec(rep: Report, idx) -> None:
+	"""Prettier (rule set -> text) and Pattern.make (text -> pattern) must be inverse on terminals"""
+	import ast
+	from vlib.srcindex import unparse
+	r = rep.rule('C12/terminal-print-parse-inverse', 'Prettier prints each terminal between the delimiters Pattern.make strips, and any escaping it applies to the text lies within what Pattern.make un-escapes', floor=3)
+	m = idx.mod('rogw/tranp/implements/syntax/tranp/rule.py')
+	rep.consulted(m.relpath)
+	make = m.func('Pattern.make')
+	pp = m.func('Prettier._pretty_pattern')
+	# reader: delimiter -> comp
+	reader = {}
+	for n in ast.walk(make.node):
+		if isinstance(n, ast.If) and isinstance(n.test, ast.BoolOp):
+			t = unparse(n.test)
+			for d in ('"', '/'):
+				if f"expression.startswith('{d}') and expression.endswith('{d}')" in t:
+					comps = [unparse(c.args[-1]) for c in ast.walk(ast.Module(body=n.body, type_ignores=[])) if isinstance(c, ast.Call) and isinstance(c.func, ast.Name) and c.func.id == 'cls' and c.args]
+					reader[d] = sorted(set(comps))
+	# is the reader's un-escaping restricted to exact two-character terminals?
+	msrc = unparse(make.node)
+	restricted = 'len(candidate) == 2' in msrc
+	unescapes = '__space_codes' in msrc
+	# writer: comp -> (delimiter, expression transformed?)
+	writer = {}
+	cur = next((s_ for s_ in pp.node.body if isinstance(s_, ast.If)), None)
+	while isinstance(cur, ast.If):
+		comp = unparse(cur.test.comparators[0]) if isinstance(cur.test, ast.Compare) else None
+		ret = next((x for x in ast.walk(ast.Module(body=cur.body, type_ignores=[])) if isinstance(x, ast.Return)), None)
+		if comp and ret is not None and isinstance(ret.value, ast.JoinedStr):
+			vals = ret.value.values
+			if len(vals) == 3 and isinstance(vals[0], ast.Constant) and isinstance(vals[2], ast.Constant) and isinstance(vals[1], ast.FormattedValue):
+				writer[comp] = (vals[0].value, vals[2].value, unparse(vals[1].value), ret.lineno)
+		cur = cur.orelse[0] if len(cur.orelse) == 1 and isinstance(cur.orelse[0], ast.If) else None
+	if set(writer) != {'Comps.Regexp', 'Comps.Equals'} or set(reader) != {'"', '/'}:
+		r.undecided('shape', pp.where, f'Prettier._pretty_pattern / Pattern.make changed shape (writer {sorted(writer)}, reader {sorted(reader)})')
+		return
+	for comp, (a, b, expr, line) in writer.items():
+		rd = reader.get(a, [])
+		r.check(a == b and rd == [comp], f'delimiter:{comp}', (m.relpath, line), f'Prettier prints {comp} terminals as {a}...{b} but Pattern.make reads {a}...{a} as {rd}')
+		verbatim = expr == 'pattern.expression'
+		if verbatim:
+			r.ok(f'text:{comp}', (m.relpath, line))
+		else:
+			# the printer transforms the text: the reader must invert it for every terminal, not only for exact two-character escapes
+			general = unescapes and not restricted and comp == 'Comps.Equals'
+			r.check(general, f'text:{comp}', (m.relpath, line), f'Prettier prints the terminal text as `{expr}` (escaped), but Pattern.make only un-escapes a terminal that is exactly one escape long (len(candidate) == 2): a terminal such as two tabs or CR LF is printed as "\\t\\t" and parsed back as four literal characters, so from_ast(parse(pretty(g))) != g', expr)
+
+
 def run(rep: Report, tier: str) -> None:
 	idx = SourceIndex()
 	sync = rep.rule('C12/artifact-sync', 'each grammar rule in the .lark text equals (node by node) the rule in the checked-in *_rules.py tuple tree', floor=72)
@@ -144,5 +192,6 @@ def run(rep: Report, tier: str) -> None:
 	wired.check(ac.imports.get('gram_rules') == ('data.syntax.gram_rules', 'gram_rules') and ac.imports.get('gram_tokenizer') == ('data.syntax.gram_tokenizer', 'gram_tokenizer'),
 		'ast_check imports', (ac.relpath, 1), 'ast_check.py no longer takes gram_rules/gram_tokenizer from data.syntax')
 	wired.note('py_rules.py is imported by the test suite only (test_syntax.py, test_ast.py); no runtime consumer exists to be checked')
+	rule_codec(rep, idx)
 	rep.extra_coverage['programs'] = len(sync.obligations)
 	rep.extra_coverage['disagreements_checked'] = sum(1 for o in sync.obligations if o.status == 'violated')
